@@ -64,6 +64,8 @@ impl Future for FlagFuture<'_> {
 pub struct AsObjs {
     // NB drop order: the parked future borrows the flags
     shared: RefCell<Option<Pin<Box<FlagFuture<'static>>>>>,
+    /// accessed before every use of the shared slot: tasks communicate through Shuttle primitives only
+    slot_sync: shuttle::sync::atomic::AtomicUsize,
     flags: Vec<Flag>,
 }
 
@@ -93,6 +95,7 @@ impl Family for AsyncFam {
     fn make_objs(cfg: &usize, _n: usize) -> AsObjs {
         AsObjs {
             shared: RefCell::new(None),
+            slot_sync: shuttle::sync::atomic::AtomicUsize::new(0),
             flags: (0..*cfg)
                 .map(|_| Flag {
                     set: AtomicBool::new(false),
@@ -125,6 +128,7 @@ impl Family for AsyncFam {
                     AsRes::Unit
                 }
                 AsOp::FlagWaitStart(f) => {
+                    o.slot_sync.fetch_add(1, Ordering::SeqCst);
                     let flag: &'static Flag = unsafe { ext(&o.flags[*f]) };
                     let mut fut = Box::pin(FlagFuture { flag });
                     let waker = shuttle_engine::runtime::execution::ExecutionState::with(|s| s.current_mut().waker());
@@ -138,6 +142,7 @@ impl Family for AsyncFam {
                     }
                 }
                 AsOp::FlagWaitShared => {
+                    o.slot_sync.fetch_add(1, Ordering::SeqCst);
                     let fut = o.shared.borrow_mut().take();
                     match fut {
                         None => AsRes::Nothing,
@@ -159,6 +164,19 @@ impl Family for AsyncFam {
         })
     }
 
+    fn yields(op: &AsOp) -> Option<bool> {
+        match op {
+            AsOp::Yield | AsOp::NestedBlockOnYield => Some(true),
+            _ => Some(false),
+        }
+    }
+    fn m_no_sched_point(op: &GOp<AsOp>) -> Option<&'static str> {
+        match op {
+            GOp::IsFinished(_) => Some("no-scheduling-point-before:JoinHandle::is_finished"),
+            GOp::Detach(_) => Some("no-scheduling-point-before:drop(JoinHandle)"),
+            _ => None,
+        }
+    }
     fn m_abortable(op: &AsOp) -> bool {
         !matches!(op, AsOp::NestedBlockOnYield | AsOp::NestedBlockOnFlag(_))
     }
